@@ -116,7 +116,7 @@ def run(tier):
     # encoder-model conformance (see tools/encconf.py): strings of MC_AztecHL's state space where the real state search left the model
     wrong, drift = encconf.conformance(chk, "aztec", quick)
     for k, c in enumerate(wrong + drift):
-        jobs.append(gen.enc("aztec", list(c), ((0, 23, 33)[k % 3], 0)))
+        jobs.append(gen.enc("aztec", list(c["content"]), ((0, 23, 33)[k % 3], 0)))
     evs, extras = onedim.judge(chk, drive, jobs, "TraceAztec", "TraceAztec.cfg", 14 if quick else 16, wanted, heap="5g", timeout=6000, describe=describe)
     ok = [e for e in evs if e["res"]["kind"] == "ok"]
     chk.cov["symbols_decoded"] = len(ok)
